@@ -103,6 +103,8 @@ def transform_c(src, kind):
         elif kind == 'incr':
             t = re.sub(r'(?<![\w)\]])(\b[A-Za-z_]\w*)\+\+(?=\s*[;)])', r'\1 += 1', t)
             t = re.sub(r'(?<![\w)\]])(\b[A-Za-z_]\w*)--(?=\s*[;)])', r'\1 -= 1', t)
+        elif kind == 'noop':
+            pass
         elif kind == 'declsplit':
             # `    T x = expr;` at any depth -> `    T x;\n    x = expr;` for simple scalar/pointer declarations of one variable
             def rep(m):
@@ -122,6 +124,18 @@ def rename_c(root, relfile, name):
     if not ext:
         return None
     src = text[ext[0]:ext[1]]
+    if TRANSFORM == 'noop':
+        # an extra statement that does nothing, after the last declaration-free point: the start of the body
+        i = src.find('\n{') + 2
+        decl_end = i
+        for m in re.finditer(r'\n', src[i:]):
+            line = src[i + m.start() + 1: src.find('\n', i + m.start() + 1)]
+            if re.match(r'^\s+[A-Za-z_][\w\s\*]*[\s\*][A-Za-z_]\w*(\[[^\]]*\])?(\s*=[^;]*)?(,\s*\**[A-Za-z_]\w*(\s*=[^;]*)?)*;\s*$', line) and not re.match(r'^\s+(return|goto|break|continue)\b', line):
+                decl_end = src.find('\n', i + m.start() + 1)
+            elif line.strip():
+                break
+        out = src[:decl_end] + '\n    (void)0;   /* nothing */' + src[decl_end:]
+        return {'file': relfile, 'old': src, 'new': out}, ['noop']
     if TRANSFORM != 'rename':
         out = transform_c(src, TRANSFORM)
         if out == src:
@@ -213,6 +227,30 @@ def rename_py(root, relfile, qual):
     return {'file': relfile, 'old': old, 'new': new}, sorted(names)
 
 
+def noop_py(root, relfile, qual):
+    """a docstring (if there is none) and a `pass` as first statements of the function"""
+    p = os.path.join(root, relfile)
+    text = open(p, encoding='utf8').read()
+    tree = ast.parse(text)
+    fn = py_find(tree, qual)
+    if fn is None or not fn.body:
+        return None
+    lines = text.split('\n')
+    first = fn.body[0]
+    has_doc = isinstance(first, ast.Expr) and isinstance(first.value, ast.Constant) and isinstance(first.value.value, str)
+    at = (first.end_lineno if has_doc else first.lineno - 1)
+    if first.lineno == fn.lineno:
+        return None                 # one-line def
+    ind = re.match(r'^(\s*)', lines[first.lineno - 1]).group(1)
+    ins = ([] if has_doc else [ind + '"""(documentation added)"""']) + [ind + 'pass']
+    old = '\n'.join(lines[fn.lineno - 1:fn.end_lineno])
+    new_lines = lines[:at] + ins + lines[at:]
+    new = '\n'.join(new_lines[fn.lineno - 1:fn.end_lineno + len(ins)])
+    if text.count(old) != 1:
+        return None
+    return {'file': relfile, 'old': old, 'new': new}
+
+
 def candidates(pid):
     ev = json.load(open(os.path.join(VERIF, 'evidence', '%s.json' % pid)))
     names = set()
@@ -268,6 +306,21 @@ def one(job):
         for fn in os.listdir('/repo'):
             if os.path.isfile(os.path.join('/repo', fn)) and not fn.startswith('.'):
                 shutil.copy2(os.path.join('/repo', fn), os.path.join(root, fn))
+        if kind == 'py' and TRANSFORM == 'noop':
+            r = noop_py(root, relfile, name)
+            if r is None:
+                return job, 'skip', 'nothing to do', ''
+            err = st.apply_edits(root, [r])
+            if err:
+                return job, 'skip', err, ''
+            if not compiles(root, relfile):
+                return job, 'skip', 'does not compile', ''
+            env = dict(os.environ, VERIF_REPO=root, VERIF_EVIDENCE_DIR=os.path.join(tmp, 'ev'))
+            rr = subprocess.run([os.path.join(VERIF, 'check'), pid], capture_output=True, text=True, env=env)
+            out = rr.stdout + rr.stderr
+            rules = sorted(set(re.findall(r'rule=(\S+)', out)))
+            errs = [l for l in out.splitlines() if 'ANALYSIS' in l][:2]
+            return job, {0: 'ok', 1: 'FALSE-ALARM', 2: 'LOST-ANCHOR'}.get(rr.returncode, 'rc%d' % rr.returncode), 'noop', '; '.join(rules + errs)[:300]
         if kind == 'py' and TRANSFORM != 'rename':
             return job, 'skip', 'C-only transform', ''
         r = (rename_c if kind == 'c' else rename_py)(root, relfile, name)
@@ -294,7 +347,7 @@ def main():
     ap.add_argument('props', nargs='*')
     ap.add_argument('-j', type=int, default=12)
     ap.add_argument('--json')
-    ap.add_argument('--transform', default='rename', choices=['rename', 'nullstyle', 'incr', 'declsplit'])
+    ap.add_argument('--transform', default='rename', choices=['rename', 'nullstyle', 'incr', 'declsplit', 'noop'])
     a = ap.parse_args()
     global TRANSFORM
     TRANSFORM = a.transform
